@@ -66,7 +66,7 @@ def array_eq(a, b):
     if a.shape != b.shape:
         return f'shape {a.shape} vs {b.shape}'
     if a.dtype.hasobject:
-        return None if a.tolist() == b.tolist() else 'object content differs'
+        return None if canon(a.tolist()) == canon(b.tolist()) else 'object content differs'
     if np.ascontiguousarray(a).tobytes() != np.ascontiguousarray(b).tobytes():
         return 'bytes differ'
     return None
